@@ -48,7 +48,7 @@ def functions_for(S, pid: str):
     from pyvc.spec import split_tags
     out = []
     for q, c in S.fns.items():
-        if c.trusted:
+        if c.trusted or c.monitor_only:
             continue
         tagged = pid in c.owners
         if not tagged:
